@@ -35,6 +35,14 @@ def conc_stab(st, model):
     return Stabilizer((R, Sm))
 
 
+def _freeze_stabs(args):
+    out = []
+    for i, a in enumerate(args):
+        if type(a).__name__ == "Stabilizer":
+            out += [(f"arg{i}.R", a.R), (f"arg{i}.S", a.S)] + ([(f"arg{i}.phases", a.phases)] if hasattr(a, "phases") else [])
+    return out
+
+
 def _replay_self(model, args, kwargs):
     return [conc_stab(a, model) if type(a).__name__ == "Stabilizer" else S.concretize(a, model) for a in args], {}
 
@@ -65,7 +73,7 @@ def case_expand(n):
     def canary(args, kw, out):
         return L.EQ(out.result[0][:, 1], out.result[0][:, (1 << n) - 1])
 
-    c = vc.Case(f"expand[n={n}]", Stabilizer.expand, make, post, canary=canary if n >= 2 else None, replay_args=_replay_self)
+    c = vc.Case(f"expand[n={n}]", Stabilizer.expand, make, post, canary=canary if n >= 2 else None, replay_args=_replay_self, freeze=_freeze_stabs)
     c.frozen = ()
     return c
 
@@ -91,7 +99,7 @@ def case_entangled(n, q):
         return [("value", L.IFF(out.result, spec_entangled(st.R, st.S, q, n)))]
 
     return vc.Case(f"is_qubit_entangled[n={n},q={q}]", Stabilizer.is_qubit_entangled, make, post,
-                   canary=(lambda args, kw, out: L.NOT(out.result)) if n >= 2 else None, replay_args=_replay_self)
+                   canary=(lambda args, kw, out: L.NOT(out.result)) if n >= 2 else None, replay_args=_replay_self, freeze=_freeze_stabs)
 
 
 def spec_cross_commute(a, b, n):
@@ -113,7 +121,7 @@ def case_equiv(n):
         return [("value", L.IFF(out.result, spec_cross_commute(args[0], args[1], n)))]
 
     return vc.Case(f"is_equivalent_mod_phase[n={n}]", Stabilizer.is_equivalent_mod_phase, make, post,
-                   canary=lambda args, kw, out: out.result, replay_args=_replay_self)
+                   canary=lambda args, kw, out: out.result, replay_args=_replay_self, freeze=_freeze_stabs)
 
 
 def case_equiv_size_mismatch(n, m):
@@ -182,4 +190,67 @@ def case_validate(n, timeout=120.0):
         return [("value", L.IFF(out.result, X.And(indep, comm)))]
 
     return vc.Case(f"validate[n={n}]", Stabilizer.validate, make, post, modular={f2.rank: rank_contract}, timeout=timeout,
-                   canary=lambda args, kw, out: out.result, replay_args=_replay_self, cover=(n <= 4))
+                   canary=lambda args, kw, out: out.result, replay_args=_replay_self, cover=(n <= 4), freeze=_freeze_stabs)
+
+
+def case_init_tuple(n, with_phases, dtype="int8"):
+    """Stabilizer((R, S[, phases])): attributes equal the inputs as int8, num_qubits = n, zero phases when omitted; inputs unmodified"""
+    from htstabilizer.stabilizer import Stabilizer
+
+    def make():
+        R = S.fresh_bits("r", (n, n), decl=dtype)
+        Sm = S.fresh_bits("s", (n, n), decl=dtype)
+        data = (R, Sm, S.fresh_bits("p", (n,), decl=dtype)) if with_phases else (R, Sm)
+        return [Stabilizer.__new__(Stabilizer), data], {}, True
+
+    def post(args, kw, out):
+        st, data = args
+        if out.interp is None:
+            st = out.result if out.result is not None else st
+        ok = all(hasattr(st, a) for a in ("R", "S", "phases", "num_qubits"))
+        cl = [("attributes", ok)]
+        if ok:
+            cl.append(("num_qubits", L.EQ(st.num_qubits, n)))
+            cl.append(("R", L.EQ(st.R, data[0])))
+            cl.append(("S", L.EQ(st.S, data[1])))
+            cl.append(("phases", L.EQ(st.phases, data[2] if with_phases else np.zeros(n, dtype=np.int64))))
+            cl.append(("dtypes_int8", all(np.dtype(S.decl_of(getattr(st, a)) if isinstance(getattr(st, a), S.SArr) else getattr(st, a).dtype) == np.int8 for a in ("R", "S", "phases"))))
+        return cl
+
+    def native(st, data):
+        return Stabilizer(data)
+
+    def replay_args(model, args, kwargs):
+        data = tuple(np.asarray(S.concretize(a, model)).astype(dtype) for a in args[1])
+        return [None, data], {}
+
+    return vc.Case(f"Stabilizer.__init__[tuple,n={n},phases={with_phases},{dtype}]", Stabilizer.__init__, make, post, native_call=native, replay_args=replay_args,
+                   freeze=lambda args: [(f"data{i}", a) for i, a in enumerate(args[1])], canary=lambda args, kw, out: L.EQ(args[0].R if out.interp is not None else out.result.R, np.zeros((n, n), dtype=np.int64)))
+
+
+def case_init_graph(n):
+    """Stabilizer(graph): generators X_v Z_N(v), zero phases; the graph's adjacency matrix is not written"""
+    from htstabilizer.stabilizer import Stabilizer
+    from .layer import mk_graph, conc_graph
+
+    def make():
+        return [Stabilizer.__new__(Stabilizer), mk_graph(n)], {}, True
+
+    def post(args, kw, out):
+        st, g = args
+        if out.interp is None:
+            st = out.result if out.result is not None else st
+        ok = all(hasattr(st, a) for a in ("R", "S", "phases", "num_qubits"))
+        cl = [("attributes", ok)]
+        if ok:
+            cl.append(("num_qubits", L.EQ(st.num_qubits, n)))
+            cl.append(("R_is_identity", L.EQ(st.R, np.eye(n, dtype=np.int64))))
+            cl.append(("S_is_adjacency", L.EQ(st.S, g.adjacency_matrix)))
+            cl.append(("phases_zero", L.EQ(st.phases, np.zeros(n, dtype=np.int64))))
+        return cl
+
+    def replay_args(model, args, kwargs):
+        return [None, conc_graph(args[1], model)], {}
+
+    return vc.Case(f"Stabilizer.__init__[graph,n={n}]", Stabilizer.__init__, make, post, native_call=lambda st, g: Stabilizer(g), replay_args=replay_args,
+                   freeze=lambda args: [("graph.adjacency_matrix", args[1].adjacency_matrix)])
